@@ -37,7 +37,7 @@ Fixpoint find_json_field (fs : list field) (k : string) : option field :=
   end.
 
 (* mark the private keys inside a JSON document that a registered parser decodes into type t *)
-Fixpoint taint_json (T : table) (t : ty) (j : json) {struct j} : json :=
+Fixpoint taint_json_ty (T : table) (t : ty) (j : json) {struct j} : json :=
   match strip_ptr t, j with
   | TNamed n, JObj kvs =>
     match find_struct T n with
@@ -50,18 +50,42 @@ Fixpoint taint_json (T : table) (t : ty) (j : json) {struct j} : json :=
                  (k, match find_json_field (s_fields sd) k with
                      | Some fd => if is_tls_key n fd
                                   then match x with JStr s => JSecret s | _ => x end
-                                  else taint_json T (f_ty fd) x
+                                  else taint_json_ty T (f_ty fd) x
                      | None => x
                      end) :: go kvs'
                end) kvs)
     end
   | TSlice t', JArr l =>
-    JArr ((fix go (l : list json) : list json := match l with [] => [] | x :: l' => taint_json T t' x :: go l' end) l)
+    JArr ((fix go (l : list json) : list json := match l with [] => [] | x :: l' => taint_json_ty T t' x :: go l' end) l)
   | TMap t', JObj kvs =>
     JObj ((fix go (kvs : list (string * json)) : list (string * json) :=
-             match kvs with [] => [] | (k, x) :: kvs' => (k, taint_json T t' x) :: go kvs' end) kvs)
+             match kvs with [] => [] | (k, x) :: kvs' => (k, taint_json_ty T t' x) :: go kvs' end) kvs)
   | _, _ => j
   end.
+
+
+(* key-based marking: every string member named "private_key" (any case), at any depth.  The raw JSON of an extension
+   config is marked this way whatever its registered parser is (a list of agents each with its own tls_context ...) *)
+Fixpoint taint_keys (j : json) : json :=
+  match j with
+  | JArr l => JArr ((fix go (l : list json) : list json := match l with [] => [] | x :: l' => taint_keys x :: go l' end) l)
+  | JObj kvs =>
+    JObj ((fix go (kvs : list (string * json)) : list (string * json) :=
+             match kvs with
+             | [] => []
+             | (k, x) :: kvs' =>
+               (k, if key_eq k tls_key_json
+                   then match x with JStr s => JSecret s | _ => taint_keys x end
+                   else taint_keys x) :: go kvs'
+             end) kvs)
+  | _ => j
+  end.
+
+(* pseudo-type standing for "mark by key" in a list of interpretations *)
+Definition keys_ty : ty := TOpaque "json:private_key-members".
+Definition is_keys_ty (t : ty) : bool := match t with TOpaque n => String.eqb n "json:private_key-members" | _ => false end.
+Definition taint_json (T : table) (t : ty) (j : json) : json :=
+  if is_keys_ty t then taint_keys j else taint_json_ty T t j.
 
 (* the JSON-level redaction: every string member whose key is "private_key" (any case) *)
 Fixpoint blank_json_keys (j : json) : json :=
@@ -89,12 +113,11 @@ Definition ext_interps (e : string) : list ty :=
 
 Definition raw_interps (n : string) (sd : sdesc) (vs : list val) : list ty :=
   if String.eqb n ext_struct then
-    match field_index (s_fields sd) "Type" 0 with
-    | Some (i, _) => match nth_error vs i with Some (VStr e) => ext_interps e | _ => [] end
-    | None => []
-    end
+    (match field_index (s_fields sd) "Type" 0 with
+     | Some (i, _) => match nth_error vs i with Some (VStr e) => ext_interps e | _ => [] end
+     | None => []
+     end ++ [keys_ty])%list
   else [].
-
 
 (* ----------------------------------------------------------------------------------- traversal helpers *)
 (* fields of a struct value zipped with the field descriptions (values beyond the description are kept) *)
@@ -421,7 +444,7 @@ Fixpoint covers (T : table) (fuel : nat) (pruned : list (list string)) (path : l
           forallb (fun fd =>
                      (path_mem (path ++ [f_go fd]) pruned
                       || match f_ty fd with
-                         | TRaw => if (String.eqb n ext_struct && ext_has_tls)%bool then prog_eq_json (sub_prog p (f_go fd)) else true
+                         | TRaw => if String.eqb n ext_struct then prog_eq_json (sub_prog p (f_go fd)) else true
                          | _ => covers T f pruned (path ++ [f_go fd]) (f_ty fd) (sub_prog p (f_go fd))
                          end)%bool) (s_fields sd))%bool
       end
@@ -574,3 +597,53 @@ Fixpoint mismatches_from {A} (ok : A -> bool) (i : nat) (l : list A) : list nat 
   | x :: l' => if ok x then mismatches_from ok (S i) l' else i :: mismatches_from ok (S i) l'
   end.
 Definition c20_mismatches (l : list c20_case) : list nat := mismatches_from c20_case_ok 0 l.
+
+(* ------------------------------------------------------------------ the JSON-level redactor, on its own *)
+(* every string found directly under a member named "private_key" (any case), at any depth *)
+Fixpoint key_strings (j : json) : list string :=
+  match j with
+  | JArr l => (fix go (l : list json) : list string := match l with [] => [] | x :: l' => (key_strings x ++ go l')%list end) l
+  | JObj kvs =>
+    (fix go (kvs : list (string * json)) : list string :=
+       match kvs with
+       | [] => []
+       | (k, x) :: kvs' =>
+         ((if key_eq k tls_key_json then match x with JStr s | JSecret s => [s] | _ => [] end else [])
+            ++ key_strings x ++ go kvs')%list
+       end) kvs
+  | _ => []
+  end.
+
+(* b is a, except possibly for the strings directly under a "private_key" member *)
+Fixpoint same_but_keys (a b : json) {struct a} : Prop :=
+  match a, b with
+  | JArr l, JArr m =>
+    (fix go (l m : list json) {struct l} : Prop :=
+       match l, m with
+       | [], [] => True
+       | x :: l', y :: m' => same_but_keys x y /\ go l' m'
+       | _, _ => False
+       end) l m
+  | JObj l, JObj m =>
+    (fix go (l : list (string * json)) (m : list (string * json)) {struct l} : Prop :=
+       match l, m with
+       | [], [] => True
+       | (k, x) :: l', (k', y) :: m' =>
+         k = k' /\
+         (if key_eq k tls_key_json
+          then match x, y with
+               | JStr _, JStr _ => True
+               | JSecret _, JSecret _ => True
+               | JStr _, _ | JSecret _, _ => False
+               | _, _ => same_but_keys x y
+               end
+          else same_but_keys x y) /\ go l' m'
+       | _, _ => False
+       end) l m
+  | _, _ => a = b
+  end.
+
+(* correspondence: (extension JSON as stored, the JSON the real redactedCopy holds for it) *)
+Definition ext_json_case := (json * json)%type.
+Definition ext_json_case_ok (k : ext_json_case) : bool := json_eqb (blank_json_keys (fst k)) (snd k).
+Definition ext_json_mismatches (l : list ext_json_case) : list nat := mismatches_from ext_json_case_ok 0 l.
